@@ -132,11 +132,11 @@ NAMES = {
 PTYPES = ["str", "Path"]
 
 # Edge PRE-STATES of the target (besides absent / old / file / directory): existing paths with (almost) no content, and
-# symlinks. In mode 'w' an existing target of any kind makes save() refuse and stays byte-identical. The property is
-# silent about symlinks; accepted there is what the library does at HEAD as long as nothing existing is destroyed in
-# mode 'w': a dangling symlink does not "exist" for the library (os.path.exists is False), so it is not refused; the
-# link and the name it points to are then judged together as the target. A symlink to an (empty) directory is refused
-# in mode 'w' and cannot be removed in mode 'o' (rmtree refuses symlinks): both are failed saves that change nothing.
+# symlinks. In mode 'w' an existing target of any kind makes save() refuse and stays byte-identical. A dangling
+# symlink is an existing path: refused in mode 'w' (link untouched), replaced by the store in mode 'o'; nothing may ever
+# appear at the name it points to, and after the link is gone a failing mode-'o' save is judged like pre-state absent.
+# A symlink to an (empty) directory is refused in mode 'w' and cannot be removed in mode 'o' (rmtree refuses symlinks;
+# the property is silent, this is what the library does): both are failed saves that change nothing.
 EDGE_PRES = ["emptydir", "emptyfile", "dir_emptysub", "symlink_dangling", "symlink_emptydir"]
 # GLOBAL MODES of the process while save() runs (the default mode is the rest of the lattice)
 GMODES = ["warnings_error", "cwd_elsewhere", "no_grad"]
@@ -595,7 +595,7 @@ def may_refuse_case(case):
     """Cases in which a failing save without any injected fault is legitimate (it is then judged like any failed save)."""
     if case.get("gmode") == "warnings_error":
         return True  # a save that fails because a warning became an error is one more failing save
-    if case["pre"] == "symlink_emptydir" or (case["pre"] == "symlink_dangling" and case["store"] == "dir"):
+    if case["pre"] == "symlink_emptydir":
         return True  # see EDGE_PRES
     if "name" not in case:
         return False
@@ -622,7 +622,8 @@ def run_case(case, seed, scratch, verbose=False):
     entry = NAMES[case["name"]] if "name" in case else None
     neighbours, may_refuse, relative, store_arg = [], may_refuse_case(case), False, store
     gmode = case.get("gmode")
-    extras = []  # names that belong to the target (what a symlinked target points to)
+    extras = []  # names that belong to the target (the directory a symlinked target points to)
+    link_dest = []  # where a dangling symlink at the target points to
     elsewhere = os.path.join(cdir, "cwd")
     os.makedirs(elsewhere)
     if entry is not None:
@@ -691,8 +692,9 @@ def run_case(case, seed, scratch, verbose=False):
         elif pre == "dir_emptysub":
             os.makedirs(os.path.join(target, "empty"))
         elif pre == "symlink_dangling":
-            extras = ["ghost.zip" if store == "zip" else "ghost"]
-            os.symlink(extras[0], target)
+            # the destination is NOT part of the target: nothing may ever appear there (it is watched as a sibling name)
+            link_dest = ["ghost.zip" if store == "zip" else "ghost"]
+            os.symlink(link_dest[0], target)
         elif pre == "symlink_emptydir":
             extras = ["realdir"]
             os.makedirs(os.path.join(parent, "realdir"))
@@ -754,7 +756,7 @@ def run_case(case, seed, scratch, verbose=False):
             left = sorted(os.listdir(tmpd)) if os.path.isdir(tmpd) else "<temp dir removed>"
             fails.append((_cls("no_temp_entry_leaked", case), f"{describe(case)}: save() {'raised ' + raised if raised else 'returned'} and the private temp directory is not as before: left behind {left}; expected it unchanged (empty)"))
         # ---- judge: the target
-        expect_refusal = mode == "w" and pre not in ("absent", "symlink_dangling")
+        expect_refusal = mode == "w" and pre != "absent"
         if mode == "w" and link0 is not None and (not os.path.islink(target) or os.readlink(target) != link0):
             fails.append((_cls("write_once_existing_path_not_destroyed", case), f"{describe(case)}: mode 'w' and the target path exists as a symlink -> {link0!r}; save() {'raised ' + raised if raised else 'returned'} and afterwards the link is {'gone' if not os.path.lexists(target) else 'replaced'}; expected the existing path to survive a write-once save"))
         if expect_refusal:
@@ -810,9 +812,9 @@ def run_case(case, seed, scratch, verbose=False):
                                 f"(complete object has {sorted(vars(new))}; first difference: {d_new}); expected target absent, unreadable, or equal to a complete save",
                             )
                         )
-        if raised is not None and not expect_refusal:
-            # what a symlinked target points to is part of the target: nothing partial may be loadable there either
-            for n in extras:
+        if raised is not None:
+            # nothing partial may be loadable where a symlinked target points to either
+            for n in extras + link_dest:
                 pth = os.path.join(parent, n)
                 if not os.path.lexists(pth):
                     continue
@@ -873,7 +875,7 @@ def case_key(case):
 def work(case, seed=0, scratch="/tmp"):
     t = Tally()
     rec, fails = run_case(case, seed, scratch)
-    refusal_expected = case["mode"] == "w" and case["pre"] not in ("absent", "symlink_dangling")
+    refusal_expected = case["mode"] == "w" and case["pre"] != "absent"
     expect_fire = case["family"] in ("injected", "seamfree") and not refusal_expected and not may_refuse_case(case)
     t.case(key=case_key(case), nontrivial=bool(rec["fired"]), outcome=[case["family"], case["store"], spelling_of(case), case.get("gmode"), case["mode"], case["pre"], rec["raised"], rec["state"], bool(rec["fired"])])
     t.extra[f"{case['family']}_cases"] += 1
@@ -932,7 +934,7 @@ def record_effects(ctx, graph, store):
 def run(ctx):
     ctx.assume(
         "faults are Python exceptions raised at a third-party write call before the write happens; process death and torn writes are outside the property",
-        "symlinked targets: the property is silent; accepted is what the library does at HEAD (a dangling link is written through, a link to a directory is refused in both modes) as long as a mode-'w' save never destroys the existing link and nothing else changes",
+        "symlinked targets: a dangling link is an existing path (refused in mode 'w', replaced in mode 'o', its destination never created); a link to a directory is refused in both modes (what the library does; the property is silent)",
         "under warnings-as-errors a save may fail without any injected fault (third-party warnings); it is then judged like every other failing save",
         "a target that loads to the COMPLETE new object after save() raised (possible only for a fault at the very last effect) is not a partial object and is accepted",
         "object values are restricted to types that round-trip exactly (round-trip fidelity is property C01)",
@@ -986,7 +988,7 @@ def run(ctx):
     ki_graphs = ["attrs", "arrays", "nested"] if ctx.quick else list(graphs)
 
     def keep(m, p, idx, n):
-        return not (ctx.quick and m == "w" and p not in ("absent", "symlink_dangling") and idx not in (0, n - 1))
+        return not (ctx.quick and m == "w" and p != "absent" and idx not in (0, n - 1))
 
     def spellings(g, s):
         """(spelling, is_baseline) for this graph and store."""
